@@ -286,6 +286,13 @@ impl Module {
         mut lhs: &'a CardIndex,
         mut rhs: &'a CardIndex,
     ) -> Result<(), SwapError> {
+        if lhs == rhs {
+            // swapping a card with itself is a no-op (provided the card exists)
+            return self
+                .get_card(lhs)
+                .map(|_| ())
+                .map_err(|err| SwapError::FetchError(lhs.clone(), err));
+        }
         if lhs < rhs {
             std::mem::swap(&mut lhs, &mut rhs);
         }
